@@ -524,3 +524,105 @@ def o7b(h):
     (volumetric energies reach det through detpIm1)"""
     c12.o1b(h)
     h.outside(*NA)
+
+
+# ------------------------------------------------------------------------------------------------ O4 (multi-block factory)
+QUAD = onp.array([[0.1, 0.0], [1.2, 0.3], [0.2, 0.9], [1.4, 1.1]])
+QCONN = onp.array([[0, 1, 2], [1, 3, 2]])
+
+
+def _mech_multiblock(h, order, degree, cap=60):
+    """two triangles, two blocks with DIFFERENT materials (block 'A': linear elastic, block 'B': neo-Hookean adagio), dict given in `order`"""
+    from optimism import Mechanics, Mesh, FunctionSpace, QuadratureRule
+    from optimism.material import LinearElastic, Neohookean
+    with jax.ensure_compile_time_eval():
+        mesh = Mesh.construct_mesh_from_basic_data(jnp.asarray(QUAD), jnp.asarray(QCONN), {'A': jnp.array([0]), 'B': jnp.array([1])})
+        fs = FunctionSpace.construct_function_space(mesh, QuadratureRule.create_quadrature_rule_on_triangle(degree=degree))
+    nq = int(fs.vols.shape[1])
+    vols, dN = onp.asarray(fs.vols), onp.asarray(fs.shapeGrads)          # (2, nq), (2, nq, 3, 2)
+    elem_of = {'A': 0, 'B': 1}
+
+    def models(EA, nuA, EB, nuB):
+        mats = {'A': LinearElastic.create_material_model_functions({'elastic modulus': EA, 'poisson ratio': nuA, 'strain measure': 'linear'}),
+                'B': Neohookean.create_material_model_functions({'elastic modulus': EB, 'poisson ratio': nuB, 'version': 'adagio'})}
+        return {k: mats[k] for k in order}
+
+    def fn(U, EA, nuA, EB, nuB):
+        if isinstance(U, jax.core.Tracer):
+            with det_stub():
+                return fn_(U, EA, nuA, EB, nuB)
+        return fn_(U, EA, nuA, EB, nuB)
+
+    def fn_(U, EA, nuA, EB, nuB):
+        mats = models(EA, nuA, EB, nuB)
+        mf = Mechanics.create_multi_block_mechanics_functions(fs, 'plane strain', mats)
+        st = mf.compute_initial_state()
+        W, Pk = mf.compute_output_energy_densities_and_stresses(U, st)
+        Etot = mf.compute_strain_energy(U, st)
+        fint = jax.grad(mf.compute_strain_energy)(U, st)
+        Wo, Po = [], []
+        for key in ('A', 'B'):                     # oracle: each element with ITS OWN block's material
+            e = elem_of[key]
+            for q in range(nq):
+                H2 = U[jnp.asarray(QCONN[e])].T @ jnp.asarray(dN[e, q])
+                H3 = jnp.zeros((3, 3)).at[0:2, 0:2].set(H2)
+                w, p = jax.value_and_grad(mats[key].compute_energy_density)(H3, st[e, q], 0.0)
+                Wo.append(w)
+                Po.append(p)
+        return W, Pk, Etot, fint, jnp.stack(Wo).reshape(2, nq), jnp.stack(Po).reshape(2, nq, 3, 3)
+
+    def smp(rng):
+        return [0.05 * rng.normal(size=(4, 2)), rng.uniform(1.0, 10.0), rng.uniform(0.05, 0.45), rng.uniform(1.0, 10.0), rng.uniform(0.05, 0.45)]
+    tag = 'multiblock[%s]_q%d' % (''.join(order), nq)
+    c = Case(h, fn, dict(U=0.01 * onp.arange(8).reshape(4, 2), EA=2.0, nuA=0.25, EB=3.0, nuB=0.3), sampler=smp, label=tag, jit=False)
+
+    def spec(i, o):
+        W, Pk, Etot, fint, Wo, Po = o
+        U = i['U']
+        asm = []
+        for q in range(nq):      # det F > 0 in the neo-Hookean element
+            Hq = [[v_sum([v_mul(U[int(QCONN[1][a])][k], float(dN[1, q, a, j])) for a in range(3)]) for j in range(2)] for k in range(2)]
+            asm.append(v_lt(0.0, v_sub(v_mul(v_add(1.0, Hq[0][0]), v_add(1.0, Hq[1][1])), v_mul(Hq[0][1], Hq[1][0]))))
+        atoms = []
+        for key in ('A', 'B'):
+            e = elem_of[key]
+            atoms.append(Eq(list(W[e]), list(Wo[e]), name='block_%s_output_density_is_own_material_energy_density' % key))
+            atoms.append(Eq(sym.flat(Pk[e]), sym.flat(Po[e]), name='block_%s_output_stress_is_grad_of_own_energy_density' % key))
+        atoms.append(Eq(s0(Etot), v_sum([v_mul(float(vols[e, q]), W[e][q]) for e in range(2) for q in range(nq)]), name='strain_energy_integrates_the_output_density'))
+        f = [[0.0, 0.0] for _ in range(4)]
+        for e in range(2):
+            for a in range(3):
+                n = int(QCONN[e][a])
+                for k in range(2):
+                    f[n][k] = v_add(f[n][k], v_sum([v_mul(float(vols[e, q]), v_mul(float(dN[e, q, a, j]), Pk[e][q][k][j])) for q in range(nq) for j in range(2)]))
+        atoms.append(Eq(sym.flat(fint), [x for r in f for x in r], name='grad_of_strain_energy_is_Bt_output_stress'))
+        return asm, atoms
+    ax = []
+    for v, n, a in c.ctx.ufs.values():
+        if n == 'log':
+            ax.append(z3.Implies(a[0] == 1, v == 0))
+        if n == 'pow':
+            ax.append(z3.Implies(a[0] == 1, v == 1))
+    c.prove(tag, spec, order=('core', 'nlsat'), denoms=True, cap=cap, extra_assumes=ax)
+
+
+@obligation(P, 'O4.output_stress_multi_block', cap=600)
+def o4_multi(h):
+    """Mechanics.create_multi_block_mechanics_functions on a 2-element mesh whose two blocks carry DIFFERENT materials (linear elastic, neo-Hookean):
+    for every element, the output energy density and stress are the value and jax.grad of ITS OWN block's material density at the harness-built
+    displacement gradient; compute_strain_energy = sum vol W_out; d(compute_strain_energy)/dU = B^T P_out; for both orders of the materials dict"""
+    from optimism import Mechanics, FunctionSpace
+    from optimism.material import LinearElastic, Neohookean
+    h.encoded(Mechanics.create_multi_block_mechanics_functions, Mechanics._compute_strain_energy_multi_block, Mechanics._compute_initial_state_multi_block,
+              Mechanics.strain_energy_density_to_lagrangian_density, Mechanics.plane_strain_gradient_transformation, FunctionSpace.evaluate_on_block,
+              FunctionSpace.integrate_over_block, LinearElastic._linear_elastic_energy_density, Neohookean._adagio_neohookean)
+    h.bounds('two P1 triangles (0.1,0),(1.2,0.3),(0.2,0.9),(1.4,1.1), conns (0,1,2),(1,3,2), blocks A = element 0 (LinearElastic, linear strain), '
+             'B = element 1 (Neohookean adagio); materials dict in both orders (A,B) and (B,A); plane strain; quadrature degree 1 (quick) and 2 (thorough); '
+             'nodal displacements (8 reals, det F > 0 in the neo-Hookean element) and the moduli E, nu of each block: all reals (denominators assumed non-zero)')
+    h.outside('more than two blocks / elements, pressure projection, axisymmetric mode', *NA)
+    h.assume_note('log and pow (non-integer exponent) are uninterpreted functions (Ackermannised)',
+                  'all symbolic denominators are assumed non-zero (1+nu, 1-2nu, det F and its powers)',
+                  'jnp.linalg.det of a 3x3 is replaced while tracing by its Leibniz polynomial (its jax derivative rule is LU-based); validation and replays run the real det')
+    for degree in ((1, 2) if h.thorough() else (1,)):
+        for order in (('A', 'B'), ('B', 'A')):
+            _mech_multiblock(h, order, degree)
